@@ -801,9 +801,9 @@ class FloatView final {
     return true;
   }
   static constexpr bool CouldWriteValue(ValueType value) {
-    // Avoid unused parameters error:
-    static_cast<void>(value);
-    return true;
+    // A single return statement, as C++11 requires of a constexpr function;
+    // the cast avoids an unused parameter error.
+    return static_cast<void>(value), true;
   }
   void UncheckedWrite(ValueType value) const {
     buffer_.UncheckedWriteUInt(ConvertToUInt(value));
